@@ -21,12 +21,12 @@ PROPS["C20"] = prop(
      Unit("TestC20UidGen", _C20_TYPES, quick=5000, thorough=100000, shards_quick=1, shards_thorough=4),
      Unit("TestC20StoreUid", _C20_MAIN, quick=20000, thorough=500000, shards_quick=1, shards_thorough=4),
      Unit("TestC20SweepAll", _C20_MAIN, rapid=False, shards_quick=1, shards_thorough=1, n_quick=3, n_thorough=40),
-     Unit("TestC20Client", _C20_MAIN, quick=12000, thorough=150000, shards_quick=4, shards_thorough=16),
-     Unit("TestC20Server", _C20_MAIN, quick=12000, thorough=150000, shards_quick=4, shards_thorough=16),
+     Unit("TestC20Client", _C20_MAIN, quick=12000, thorough=100000, shards_quick=4, shards_thorough=16),
+     Unit("TestC20Server", _C20_MAIN, quick=12000, thorough=100000, shards_quick=4, shards_thorough=16),
      Unit("TestC20PbClient", _C20_MAIN, quick=6000, thorough=150000, shards_quick=2, shards_thorough=8),
      Unit("TestC20PbServer", _C20_MAIN, quick=6000, thorough=150000, shards_quick=2, shards_thorough=8),
      ],
     ["a Uid text whose last base64 character differs only in the unused trailing bits is an alternative spelling of the same id (DESIGN.md section 4)",
      "p2p strings whose halves are out of order, equal or zero are never produced by P2PName; how ParseP2P reads them is unspecified",
-     "upper-case base32 is never produced by String32; ParseUid32 may read it as the id or as zero"],
+     "upper- or mixed-case base32 is never produced by String32; ParseUid32 may read it as the id or as zero"],
 )
